@@ -189,3 +189,101 @@ def check_signed_bit_test(ctx, fns, rule="R23.signed-bit-test", key_prefix="sign
                    "`%s` tests single mask bits with a signed %d-bit compare; no mask lane is the sign bit" % (src(c)[:70], w),
                    not hit, "a lane of the mask is %#x: the masked value is negative when that bit is set" % sign if hit else "")
     return n
+
+
+# ---- R23c: a per-lane counter cannot outgrow its lanes before it is flushed
+ACC = re.compile(r"^_mm(256|512)?_(add|sub)_epi(8|16|32)$")
+CMPR = re.compile(r"^_mm(256|512)?_cmp(eq|gt|lt)_epi(8|16|32)$")
+SIGNED_USE = re.compile(r"^_mm(256|512)?_(madd_epi16|cvtepi(8|16)_epi(16|32|64)|hadd_epi16|hadds_epi16|maddubs_epi16)$")
+UNSIGNED_USE = re.compile(r"^_mm(256|512)?_(sad_epu8|cvtepu(8|16)_epi(16|32|64))$")
+
+
+def _const_of(fn, e, depth=0):
+    x = e.strip_casts() if e is not None else None
+    if x is None:
+        return None
+    if x.cv is not None:
+        return x.cv
+    if x.k == "BinaryOperator" and x.op in ("*", "+", "-"):
+        a, b = _const_of(fn, x.c[0], depth), _const_of(fn, x.c[1], depth)
+        if a is not None and b is not None:
+            return a * b if x.op == "*" else a + b if x.op == "+" else a - b
+    return None
+
+
+def check_lane_counters(ctx, fns, rule="R23.lane-counter", key_prefix="lane-counter"):
+    """`acc = sub/add_epiN(acc, cmp(...))` counts matches per lane, one per iteration. When the counter is flushed by
+    an operation that reads the lanes as signed N-bit numbers it may hold at most 2^(N-1)-1, as unsigned 2^N-1; the
+    number of iterations between two resets of acc (a block bound `end = i + K*step` with the loop stepping by
+    `step`) must not exceed that."""
+    P = ctx.P
+    n = 0
+    for fn in fns:
+        idx = 0
+        for a in fn.body.walk():
+            if not (a.k == "BinaryOperator" and a.op == "=" and a.c[0].strip().k == "DeclRefExpr"):
+                continue
+            rhs = a.c[1].strip_casts()
+            if rhs is None or rhs.k != "CallExpr":
+                continue
+            m = ACC.match(iname(rhs) or "")
+            if not m or len(rhs.args()) != 2:
+                continue
+            d = a.c[0].strip().get("d")
+            ops = [x.strip_casts() for x in rhs.args()]
+            selfop = [x for x in ops if x.k == "DeclRefExpr" and x.get("d") == d]
+            incs = [x for x in ops if not (x.k == "DeclRefExpr" and x.get("d") == d)]
+            if len(selfop) != 1 or len(incs) != 1:
+                continue
+            inc = _single_def(fn, incs[0])
+            if inc is None or inc.k != "CallExpr" or not CMPR.match(iname(inc) or ""):
+                continue
+            bits = int(m.group(3))
+            # the loop the update sits in, and how the counter is used after it
+            loop = next((x for x in a.ancestors() if x.k in ("ForStmt", "WhileStmt")), None)
+            if loop is None:
+                continue
+            uses = [c for c in fn.body.walk() if c.k == "CallExpr" and c is not rhs and any(
+                y.k == "DeclRefExpr" and y.get("d") == d for z in c.args() for y in [z.strip_casts()] if y is not None)]
+            signed = any(SIGNED_USE.match(iname(c) or "") for c in uses)
+            unsigned = any(UNSIGNED_USE.match(iname(c) or "") for c in uses)
+            if not signed and not unsigned:
+                continue
+            limit = (1 << (bits - 1)) - 1 if signed else (1 << bits) - 1
+            # iterations between resets: loop condition `i + S <= E` (or `i < E`) with step S, and `E = i + K` set before the loop
+            cond = loop.c[2] if loop.k == "ForStmt" else loop.c[-2]
+            step = None
+            for x in loop.walk():
+                if x.k == "CompoundAssignOperator" and x.op == "+=" and x.c[1].cv is not None:
+                    step = x.c[1].cv
+            bound = None
+            if cond is not None:
+                c_ = cond.strip_casts()
+                if c_.k == "BinaryOperator" and c_.op in ("<", "<="):
+                    E = c_.c[1].strip_casts()
+                    if E.k == "DeclRefExpr" and E.get("dk") == "local":
+                        for y in fn.body.walk():
+                            init = None
+                            if y.k == "DeclStmt":
+                                for dd, i_ in zip(y.get("decls", []), y.c):
+                                    if dd.get("d") == E.get("d") and i_ is not None:
+                                        init = i_
+                            elif y.k == "BinaryOperator" and y.op == "=" and y.c[0].strip().k == "DeclRefExpr" and y.c[0].strip().get("d") == E.get("d"):
+                                init = y.c[1]
+                            if init is not None:
+                                z = init.strip_casts()
+                                if z.k == "BinaryOperator" and z.op == "+":
+                                    k = _const_of(fn, z.c[1]) if _const_of(fn, z.c[1]) is not None else _const_of(fn, z.c[0])
+                                    if k is not None:
+                                        bound = k if bound is None else max(bound, k)
+            n += 1
+            key = "%s|%s:%s|L%d" % (key_prefix, P.rel(fn.file), fn.name, idx)
+            idx += 1
+            what = ("the %d-bit lane counters updated by `%s` are flushed (%s) before a lane can exceed %d" % (
+                bits, src(a)[:50], "read as signed" if signed else "read as unsigned", limit))
+            if bound is None or not step:
+                ctx.inconclusive(rule, key, P.where(a), what, "the number of iterations between two resets of the counter was not found")
+                continue
+            iters = bound // step
+            ctx.ob(rule, key, P.where(a), what, iters <= limit, "up to %d iterations between resets" % iters)
+    return n
